@@ -27,6 +27,7 @@ class InterruptableThread(threading.Thread):
         self.daemon = True
         self.result = None
         self.exc_info = (None, None, None)
+        self.terminated = False
 
     def run(self):
         """
@@ -69,7 +70,16 @@ class InterruptableThread(threading.Thread):
 
         """
         self.exc_info = sys.exc_info()
+        self.terminated = True
         self.raise_exception(SystemExit)
+
+
+def current_thread_was_terminated():
+    """
+    Whether the calling thread is a worker of :py:func:`timeout` that ran out
+    of time and was told to stop; whoever waited for it has already moved on.
+    """
+    return threading is not None and getattr(threading.current_thread(), 'terminated', False)
 
 
 def timeout(duration, func, *args, **kwargs):
